@@ -114,17 +114,14 @@ Proof.
     + intros [H|[H _]]; [|discriminate]. rewrite getn_setn_eq by exact Ln. exact H.
 Qed.
 
-Lemma unwind_keeps_pend : forall to r stk cs below,
-  unwind r stk = Some (cs, below) -> forall f, In f stk -> pend_frame to f -> In f below.
+Lemma unwind_keeps_pend : forall to r stk cs ks below term,
+  unwind r stk = Some (cs, ks, below, term) -> forall f, In f stk -> pend_frame to f -> In f below.
 Proof.
-  induction stk as [|h t IH]; simpl; intros cs below H f Hin Hp; [discriminate|].
-  destruct h; try discriminate.
-  - destruct (Nat.eqb r r0); [|discriminate]. destruct Hin as [<-|Hin]; [contradiction|]. eapply IH; eauto.
-  - destruct (Nat.eqb r r0); [|discriminate].
-    destruct (unwind r t) as [[cs' b']|]; [|discriminate]. inversion H; subst.
-    destruct Hin as [<-|Hin]; [contradiction|]. eapply IH; eauto.
-  - destruct (Nat.eqb r r0); [|discriminate]. inversion H; subst.
-    destruct Hin as [<-|Hin]; [contradiction | exact Hin].
+  intros to r stk cs ks below term H f Hin Hp.
+  destruct (unwind_split _ _ _ _ _ _ H) as [d [l [E [F [L _]]]]]. subst stk.
+  apply in_app_iff in Hin. destruct Hin as [Hin|[<-|Hin]]; [| |exact Hin].
+  - rewrite forallb_forall in F. specialize (F f Hin). destruct f; simpl in *; try discriminate; contradiction.
+  - destruct term; simpl in L; [subst l; contradiction | destruct L as [c ->]; contradiction].
 Qed.
 
 Lemma do_fail_edge : forall s r stk retry s1 st sp others,
@@ -132,13 +129,17 @@ Lemma do_fail_edge : forall s r stk retry s1 st sp others,
   s_nodes s1 = s_nodes s /\
   (forall to, pending (stk ++ others) to -> pending (st ++ others ++ concat sp) to).
 Proof.
-  intros s r stk retry s1 st sp others H. unfold do_fail in H.
-  destruct (unwind r stk) as [[cs below]|] eqn:U; [|discriminate].
-  assert (K : forall to, pending (stk ++ others) to -> pending ((FUnlock r :: below) ++ others) to).
-  { intros to [f [Hin Hp]]. exists f. split; [|exact Hp]. apply in_app_iff in Hin. simpl.
+  intros s r stk retry s1 st sp others H.
+  destruct (do_fail_spec _ _ _ _ _ _ _ H) as [cs [ks [below [term [y [U [N [Sl [R [Y1 [Y2 [Y3 [Y4 [Y5 [Y6 [Y7 [Y8 T]]]]]]]]]]]]]]]]].
+  split; [exact N|].
+  assert (K : forall top to, pending (stk ++ others) to -> pending ((top :: below) ++ others) to).
+  { intros top to [f [Hin Hp]]. exists f. split; [|exact Hp]. apply in_app_iff in Hin. simpl.
     destruct Hin as [Hin|Hin]; [right; apply in_app_iff; left; eapply unwind_keeps_pend; eauto | right; apply in_app_iff; right; exact Hin]. }
-  destruct retry; inversion H; subst; clear H; (split; [reflexivity|]); intros to P; apply K in P;
-    (eapply pending_incl; [|exact P]); intros f Hf; simpl in *; rewrite ?in_app_iff in *; simpl; tauto.
+  intros to P. destruct term as [jid|].
+  - destruct T as [-> _]. eapply pending_incl; [|apply (K (FBranchEnd jid)); exact P].
+    intros f Hf. simpl in *. rewrite ?in_app_iff in *. tauto.
+  - destruct T as [-> _]. eapply pending_incl; [|apply (K (FUnlock r)); exact P].
+    intros f Hf. simpl in *. rewrite ?in_app_iff in *. tauto.
 Qed.
 
 Ltac same_oi_tac :=
@@ -323,7 +324,7 @@ Proof.
         -- same_oi_tac.
         -- rewrite app_length. lia.
     + destruct (Nat.eqb arg 0).
-      * destruct (cache_get (r_cache (getr s r)) key) as [child|]; [destruct (Nat.eqb child c); [discriminate|]|]; inversion H; subst; clear H; simpl;
+      * destruct (memb key (r_keys (getr s r))); [discriminate|]. inversion H; subst; clear H; simpl;
           (eapply edge_on_frames; [|exact Inv]); keep_frames.
       * destruct (Nat.eqb arg 2); [inversion H; subst; clear H; simpl; (eapply edge_on_frames; [|exact Inv]); keep_frames|].
         destruct (r_cancel (getr s r)); [|discriminate].
@@ -343,6 +344,8 @@ Proof.
         rewrite N. eapply edge_on_frames; [|exact Inv].
         intros to [g [Hin Hp]]. left. apply P. exists g. split; [|exact Hp].
         simpl in Hin. destruct Hin as [<-|Hin]; [simpl in Hp; contradiction|]. simpl. right. exact Hin.
+    + (* OPar *)
+      inversion H; subst; clear H; simpl; (eapply edge_on_frames; [|exact Inv]); keep_frames.
   - (* FDepAdd *)
     destruct (do_add_out s res c) as [[s2 sp2]|] eqn:A; [|discriminate].
     inversion H; subst; clear H.
@@ -382,6 +385,24 @@ Proof.
     + keep_frames.
     + unfold getN. same_oi_tac.
     + rewrite length_setn. lia.
+  - (* FCacheGet *)
+    destruct (cache_get (r_cache (getr s r)) key) as [child|]; [destruct (Nat.eqb child c); [discriminate|]|];
+      inversion H; subst; clear H; simpl; (eapply edge_on_frames; [|exact Inv]); keep_frames.
+  - (* FKeyUnlock *)
+    inversion H; subst; clear H. simpl. eapply edge_on_frames; [|exact Inv]. keep_frames.
+  - (* FJoin *)
+    destruct (nth jid (s_joins s) (0, false)) as [nb failed]. destruct (Nat.eqb nb 0); [|discriminate].
+    destruct failed.
+    + destruct (do_fail_edge _ _ _ _ _ _ _ others H) as [N P].
+      rewrite N. eapply edge_on_frames; [|exact Inv].
+      intros to [g [Hin Hp]]. left. apply P. exists g. split; [|exact Hp].
+      simpl in Hin. destruct Hin as [<-|Hin]; [simpl in Hp; contradiction | exact Hin].
+    + inversion H; subst; clear H. eapply edge_on_frames; [|exact Inv]. keep_frames.
+  - (* FBranchBegin *)
+    inversion H; subst; clear H. eapply edge_on_frames; [|exact Inv]. keep_frames.
+  - (* FBranchEnd *)
+    destruct (nth jid (s_joins s) (0, false)) as [nb failed]. inversion H; subst; clear H. simpl.
+    eapply edge_on_frames; [|exact Inv]. keep_frames.
   - (* FRunEnd *)
     inversion H; subst; clear H. simpl. eapply edge_on_frames; [|exact Inv]. keep_frames.
   - (* FArm *)
